@@ -1,5 +1,12 @@
 import Abyss.Props.C14
 import Abyss.Lemmas.ApiGenL
+import Abyss.Props.C14Gen
+#print axioms Abyss.C14_generated_bulk_get
+#print axioms Abyss.C14_generated_bulk_delete
+#print axioms Abyss.C14_generated_bulk_put
+#print axioms Abyss.C14_generated_put_from_iter
+#print axioms Abyss.modelOps_refines
+#print axioms Abyss.C14_generated_bulk_get_bytes
 #print axioms Abyss.apiBulkGet_eq
 #print axioms Abyss.apiBulkDelete_eq
 #print axioms Abyss.apiBulkPut_eq
